@@ -28,6 +28,40 @@ CLAIMED = {
              "chunkings with two or more boundaries other than all-1-byte and all-3-byte chunks (thorough does). slice_index_fail is stubbed by a plain panic.",
         technique="Kani/CBMC symbolic execution of each getter vs. independent reference decoder (SAT)",
         design="5 C10"),
+    "C09": dict(
+        text="Bounded model checking of the cursor laws (remaining = length, chunk = non-empty prefix, advance/copy_to_slice/"
+             "try_copy_to_slice/copy_to_bytes/typed read consume exactly the next bytes, chunks_vectored: count <= dst.len(), concatenation "
+             "is a prefix, >= 1 non-empty slice, dst beyond the count untouched, into_iter) for every Buf of the crate. Adapters (Chain, Take "
+             "with the limit symbolic over all of usize incl. set_limit mid-stream, &mut, Box, Box<dyn Buf>, IntoIter) are decided relative to "
+             "SymBuf inners (symbolic content, length and chunking), which by induction over nesting depth covers arbitrary nestings; depth-3/4 "
+             "nestings over SymBuf and over real leaf types are instantiated as a cross-check; leaves: &[u8], Bytes (3 representations), BytesMut, "
+             "Cursor with a symbolic u64 position, wrapped VecDeque; advance past the end must not return.",
+        note=COMMON_NOTE + "Sequences <= 4 bytes per leaf (<= 8 per nesting), <= 2 cursor operations per harness (the laws are state "
+             "invariants re-established after each operation), chunks_vectored destinations of 0..=3 slots, VecDeque in three concrete ring shapes.",
+        technique="Kani/CBMC symbolic execution of adapters over lawful symbolic inner buffers (SAT)",
+        design="5 C09"),
+    "C11": dict(
+        text="Bounded model checking: every put_X scraped from `pub unsafe trait BufMut` (38) writes exactly an independent shift-based "
+             "encoding (value and nbytes symbolic) at the cursor, a following write lands right behind it, remaining_mut drops by the width, "
+             "every byte outside the written range keeps its guard value (symbolic index), the matching get_X reads the value back; a write "
+             "that does not fit never returns and an observer installed in place of the crate's panic_advance asserts that no guard byte was "
+             "modified when the panic is raised. put_slice/put_bytes/put(Buf) with symbolic sources (SymBuf, independent chunking on both "
+             "sides). Targets: &mut [u8], &mut [MaybeUninit<u8>], Vec (growth / no growth), BytesMut (vec form with/without offset, shared "
+             "form in thorough), Chain with symbolic split, Limit with symbolic limit, SymBufMut (1-byte, 3-byte, symbolic chunks), &mut B, Box<B>.",
+        note=COMMON_NOTE + "Windows <= 20 bytes; growable targets use concrete nbytes/lengths (they are allocation sizes); native endian on "
+             "little-endian only; bytes::panic_advance and core::slice::index::slice_index_fail are stubbed (observer / plain panic).",
+        technique="Kani/CBMC symbolic execution of each putter vs. independent reference encoder, guard bytes, panic-site observer stub (SAT)",
+        design="5 C11"),
+    "C12": dict(
+        text="Bounded model checking over lawful symbolic inner buffers: take(n) for every n in usize exposes exactly min(n, remaining) bytes and "
+             "limit()/get_ref()/into_inner() show the inner advanced by exactly what went through (also after set_limit mid-stream, typed reads "
+             "crossing the limit, copy_to_bytes, chunks_vectored with three inner slices); chain reads a then b and first_ref/last_ref/into_inner "
+             "show the split consumption; limit(n) accepts at most n (a larger write never returns and touches nothing), chain_mut fills a "
+             "then b; Reader::read/fill_buf/consume and Writer::write/flush transfer min(available, requested) and return Ok.",
+        note=COMMON_NOTE + "Inner buffers <= 4 bytes, nestings up to depth 3 over SymBuf (depth 4 over real leaves in thorough); only read, "
+             "fill_buf, consume, write, flush of std::io are encoded (std's looping default methods are outside).",
+        technique="Kani/CBMC symbolic execution of adapters over SymBuf/SymBufMut with symbolic limits (SAT)",
+        design="5 C12"),
 }
 
 NOT_YET = "check not built yet in this session (work in progress; see DESIGN.md section 5 for the planned solver encoding)"
